@@ -10,9 +10,9 @@
    request whose acceleration signs match the direction of travel), and for the double-S generator all four cruise
    variants and the three exits of the bisection loop, for ANY number of loop passes (induction on the model's fuel);
    the acceleration limit of the two single-phase exits needs the standard double-S feasibility condition.
-   The models are those of /repo WITH proposed_fixes/C14-1.diff (both generators return 0 when a limit is zero; without
-   it a_trajtrap_gen(vm = 0) returns +inf and a_trajbell_gen(vm = 0) returns a positive duration with a peak velocity
-   above the zero limit): with that guard the planning theorems need no hypothesis on the limits at all.
+   The models include the zero-limit guards of /repo commit b8b7c64 (both generators return 0 when a limit is zero; before
+   it a_trajtrap_gen(vm = 0) returned +inf and a_trajbell_gen(vm = 0) a positive duration with a peak velocity above the
+   zero limit): with that guard the planning theorems need no hypothesis on the limits at all.
    Definitions used in the statements: WFtrap, trap_feasible, clampR, trap_gen_post, trap_motion (C14/TrapProofs.v,
    TrapGenProofs.v, MotionProofs.v); WFbell, WFlim, mirror, bnorm, bnd (BellProofs.v); bell_feasible, feasible_std,
    bell_gen_post, inv, exit_post, shape (BellGenProofs.v); bell_motion (MotionProofs.v).
